@@ -170,10 +170,7 @@ pub fn replay(r: &Value) -> bool {
         let mut rep = Report::new();
         check_one::<V>(ty, "replay", &unhex(r["bytes"].as_str().unwrap()), &mut rep);
         println!("counters: {:?}", rep.counters);
-        for v in &rep.violations {
-            println!("{}: {}", v.signature, v.detail);
-        }
-        rep.violations.is_empty()
+        crate::util::print_replay(&rep)
     }
     match r["variant"].as_str().unwrap_or("") {
         "falcon512" => go::<F512>(r),
